@@ -239,16 +239,21 @@ class HelpersContent:
 
     @staticmethod
     def _guard_single_send(fn: Item):
-        """'at most one POST per call' is argued from: `send` is the only wire operation of the stand-in,
-        it consumes its builder, and the body is loop-free with ONE `.send(` call site.  The last two facts
-        are syntactic and are checked here; if they do not hold the argument does not apply -> inconclusive."""
-        from ..rustlex import body_loops
+        """'at most one POST per call': `send` is the only wire operation of the stand-in, it consumes its builder, it
+        REQUIRES the builder to be `unsent()` (granted once per `post()`, not duplicated by try_clone). What this
+        contract cannot bound is a send inside a loop that builds a fresh request each time: checked syntactically
+        here; if it occurs the argument does not apply -> inconclusive."""
+        from ..rustlex import body_loops, loop_body_open
         toks = fn.toks
         sends = [k for k in range(fn.open, fn.last) if toks[k].kind == 'ident' and toks[k].text == 'send'
                  and toks[k - 1].text == '.' and toks[_next_sig(toks, k + 1)].text == '(']
-        if len(sends) != 1 or body_loops(fn):
-            raise AnchorLost(f'send_soap_request_using_client: {len(sends)} `.send(` call sites and {len(body_loops(fn))} loops; '
-                             'the single-POST argument needs exactly one call site in a loop-free body')
+        loops = body_loops(fn)
+        for lk in loops:
+            ob = loop_body_open(toks, lk)
+            cl = match_close(toks, ob)
+            if any(ob < k < cl for k in sends):
+                raise AnchorLost('send_soap_request_using_client: `.send(` inside a loop; the single-POST argument (one sendable '
+                                 'builder per post(), consumed by send) does not bound the number of requests there')
 
     # -------------------------------------------------------------------------------- multi_ref
     def emit_multi_ref(self, out: Out, probe: bool, record: bool = True):
